@@ -19,6 +19,6 @@ Task: make ONE small, realistic change to the mitmproxy source (under mitmproxy/
 {("Previous testers already seeded the change(s) described below for this property. Choose a DIFFERENT mechanism: another function, another clause of the property, another trigger (prefer triggers that need an interleaving, a fault at a particular point, or a multi-step history). Previous changes (do NOT repeat them or close variants):" + chr(10) + "-----" + chr(10) + prev + chr(10) + "-----" + chr(10)) if prev else ""}
 Deliverables, all inside {wt}/_seed/ :
   1. patch.diff  — `git diff` of your change (source only).
-  2. demo.py (or demo_test.py) — a small self-contained program that exits 0/passes on the ORIGINAL code and fails (non-zero exit / assertion) WITH your change, demonstrating the property violation. Verify both directions yourself (use `git stash` / `git stash pop` or apply/revert the patch).
+  2. demo.py (or demo_test.py) — a small self-contained program that exits 0/passes on the ORIGINAL code and fails (non-zero exit / assertion) WITH your change, demonstrating the property violation. Verify both directions yourself (revert and re-apply with `git apply -R _seed/patch.diff` and `git apply _seed/patch.diff`; never use `git stash`, its storage is shared with other checkouts).
   3. notes.md — 5-10 lines: what you changed, why the existing tests do not notice, what is needed for the break to manifest, which existing tests you ran.
 Leave the worktree with your change APPLIED. Reply with a short summary (what you changed, what triggers it, commands you ran and their results).""")
